@@ -180,6 +180,18 @@ Theorem C11_pdp_categories : forall m p, keys_in_table m -> to_pdp m = Ok p -> m
 Proof. exact pdp_categories. Qed.
 Print Assumptions C11_pdp_categories.
 
+(* the attributes derived from a slice carry the pinned XACML id text and data type and sit in the resource category
+   (for every row of the pinned interface table, checked against the regenerated ATTRIBUTE_TYPES_AND_CATEGORIES) *)
+Theorem C11_resource_attribute_interface : forall k u d, In (k, (u, d)) pinned_resource_rows ->
+  urn_of k = u /\ exists dt c, lookupN k attr_table = Some (dt, c) /\ dtype_of dt = d /\ cat_of c = resource_category.
+Proof. exact resource_rows. Qed.
+Print Assumptions C11_resource_attribute_interface.
+
+Theorem C11_resource_attribute_interface_covers :
+  forallb (fun k => existsb (fun r => N.eqb (fst r) k) pinned_resource_rows) (base_keys ++ map snd nstype_lut) = true.
+Proof. exact resource_rows_cover_b. Qed.
+Print Assumptions C11_resource_attribute_interface_covers.
+
 (* the hypotheses of the two previous theorems hold for every mapping a run produces *)
 Theorem C11_run_keys_wellformed : forall ops m, run ops = Ok m -> NoDup (keys m) /\ keys_in_table m.
 Proof. exact (fun ops m H => conj (proj1 (Inv_run ops m H)) (Inv_in_table m (Inv_run ops m H))). Qed.
